@@ -496,7 +496,47 @@ func genCFFGlyph(t *rapid.T, name string, width float64) *cff.Glyph {
 		nseg := rapid.IntRange(0, 6).Draw(t, "nSeg")
 		x, y := g.Cmds[len(g.Cmds)-1].Args[0], g.Cmds[len(g.Cmds)-1].Args[1]
 		for k := 0; k < nseg; k++ {
-			switch rapid.IntRange(0, 4).Draw(t, "segKind") {
+			switch rapid.IntRange(0, 6).Draw(t, "segKind") {
+			case 5:
+				// a curve whose first and last tangents are horizontal or
+				// vertical (the shapes the compact curve operators encode)
+				d := func() float64 { return float64(rapid.IntRange(-200, 200).Draw(t, "tanD")) }
+				x1, y1 := x, y
+				if rapid.Bool().Draw(t, "startH") {
+					x1 += d()
+				} else {
+					y1 += d()
+				}
+				x2, y2 := x1+d(), y1+d()
+				x3, y3 := x2, y2
+				if rapid.Bool().Draw(t, "endH") {
+					x3 += d()
+				} else {
+					y3 += d()
+				}
+				g.CurveTo(x1, y1, x2, y2, x3, y3)
+				x, y = x3, y3
+			case 6:
+				// two curves joined with horizontal tangents throughout, as in
+				// the flex operators; the second returns to the starting
+				// height exactly, nearly, or not at all
+				d := func() float64 { return float64(rapid.IntRange(-150, 150).Draw(t, "flexD")) }
+				x1 := x + d()
+				x2, y2 := x1+d(), y+d()
+				x3 := x2 + d()
+				g.CurveTo(x1, y, x2, y2, x3, y2)
+				x4 := x3 + d()
+				x5 := x4 + d()
+				y5 := y
+				switch rapid.IntRange(0, 2).Draw(t, "flexReturn") {
+				case 1:
+					y5 = y + float64(rapid.SampledFrom([]int{-2, -1, 1, 2}).Draw(t, "flexOff"))
+				case 2:
+					y5 = y2 + d()
+				}
+				x6 := x5 + d()
+				g.CurveTo(x4, y2, x5, y5, x6, y5)
+				x, y = x6, y5
 			case 0:
 				x = cffCoord(t)
 				g.LineTo(x, y) // horizontal
